@@ -106,6 +106,8 @@ def diff_states(a, b):
 
 def run(ctx: Ctx):
     import_amisc()
+    import c12s
+    c12s.run_search(ctx)       # amisc.utils.search_for_file versus Model/Search.v
     from amisc import System
     rng = ctx.rng
     tmp = WORK / f'c12_tmp_{os.getpid()}'
